@@ -13,8 +13,8 @@ import gen_seeds
 from vlib import *
 
 ST_CFG = 'SPECIFICATION Spec\nCONSTANT Mode = "%s"\nCHECK_DEADLOCK FALSE\n'
-ACC = re.compile(r'<<"ACCEPT",\s*([\d,\s]+)>>')
-REJ = re.compile(r'<<"REJECT",\s*(\d+),\s*"([^"]*)",\s*\{(.*?)\}(?:,\s*(-?\d+),\s*(-?\d+))?', re.S)
+ACC = re.compile(r'<<\s*"ACCEPT",\s*([\d,\s]+?)\s*>>', re.S)
+REJ = re.compile(r'<<\s*"REJECT",\s*(\d+),\s*"([^"]*)",\s*\{(.*?)\}(?:,\s*(-?\d+),\s*(-?\d+))?', re.S)
 
 
 def validate_search(path, mode, big=False):
